@@ -78,7 +78,15 @@ CLAIMED = {
         "design_ref": "DESIGN.md §6 C09",
     },
     "C06": {
-        "text": "Proven monitor. Lean theorems for all states and traces: ownOk is exactly 'every allocated page has exactly one owner (latest "
+        "text": "Algorithmic model with an inductive proof (Model/Life2.lean, Props/Life2.lean): a state machine of redb's page bookkeeping "
+                "at transaction granularity (commit pipeline with merge / release / publish / epilogue, non-durable reclaim, unpersisted "
+                "records, readers and internal pins, savepoints incl. restore and deletion, abort, reopen, crash) whose invariant - every "
+                "allocated page has exactly one owner, every page of every pin and of the durable image is allocated and held - holds initially, "
+                "is preserved by every guarded step and therefore in every reachable state; corollaries: no page of a pin is handed out by a "
+                "commit or its epilogue, abort leaves no trace, crash yields the durable image with allocated = owned, three empty durable "
+                "commits drain every record (tight). Tied to the code by prediction: from each observed step and tree diff the model computes "
+                "the next allocated set, pending-free records, pins and tracker counts, which must equal what the read-only hooks show. "
+                "In addition the proven monitor. Lean theorems for all states and traces: ownOk is exactly 'every allocated page has exactly one owner (latest "
                 "data tree, latest system tree, or one pending-free record) and every other page is free'; under ownOk+pinOk every page of every "
                 "pin (live reader, savepoint, last durable root) and of the durable system tree is allocated; over any accepted trace a pinned "
                 "page stays allocated and is only ever owned by the data tree or a pending-free record of a later transaction (never released, "
@@ -86,8 +94,8 @@ CLAIMED = {
                 "Every state and transition of the real database observed after every step of generated histories (all durabilities, commit "
                 "strategies, aborts, savepoints, readers, reopen, crash-reopen, compaction, check_integrity) is fed to the monitor; the harness "
                 "also checks exact accounting, pinned bytes unchanged, return to level at quiescence, and the region tracker.",
-        "note": NOTE + "; the theorems are about the ownership monitor (proven-monitor correspondence): they turn `accept trace` into the property for every accepted trace; that every trace the real system can produce is accepted is checked only on the generated histories; the monitor works on page ownership, byte-level immutability of pinned pages and table contents are judged by the harness oracles (fingerprints, re-reads, recorded commit points); single-threaded histories",
-        "technique": "Lean 4 proof of a trace monitor (page ownership) + observation of the real system through read-only hooks",
+        "note": NOTE + "; two layers: the algorithmic model Life2 (invariant proved for every reachable state of the model; its inputs are the observed tree diffs - the B-tree layer is not modelled there - and it is tied to the code by predicting every observed state of the generated histories, about 96% of states, the rest - first state of a case, completed compact() - resynchronised under a checked postcondition) and the ownership monitor (proven-monitor correspondence: `accept trace` implies the property for that trace); that the real system behaves as the model on histories that were not generated is not proved; the monitor works on page ownership, byte-level immutability of pinned pages and table contents are judged by the harness oracles (fingerprints, re-reads, recorded commit points); single-threaded histories",
+        "technique": "Lean 4 proof by invariant induction over an algorithmic model (prediction correspondence) + proven trace monitor + observation of the real system through read-only hooks",
         "design_ref": "DESIGN.md §6 C06",
     },
     "C01": {
@@ -122,7 +130,7 @@ CLAIMED = {
                 "On the implementation every live read transaction is re-read completely after every later step (commits of every durability, "
                 "aborts, restores, page reuse, resize, compaction attempts, cache sizes from 0) and compared with the contents at its begin_read; "
                 "the byte fingerprint of its tree must not change; a reader begun after a commit must show that commit.",
-        "note": NOTE + "; the theorems are about the ownership monitor (proven-monitor correspondence): they turn `accept trace` into the property for every accepted trace; that every trace the real system can produce is accepted is checked only on the generated histories; the monitor works on page ownership, byte-level immutability of pinned pages and table contents are judged by the harness oracles (fingerprints, re-reads, recorded commit points); single-threaded histories" + "; owned guards/iterators outliving the transaction handle and thread interleavings are not yet exercised (C03 pause points planned)",
+        "note": NOTE + "; two layers: the algorithmic model Life2 (invariant proved for every reachable state of the model; its inputs are the observed tree diffs - the B-tree layer is not modelled there - and it is tied to the code by predicting every observed state of the generated histories, about 96% of states, the rest - first state of a case, completed compact() - resynchronised under a checked postcondition) and the ownership monitor (proven-monitor correspondence: `accept trace` implies the property for that trace); that the real system behaves as the model on histories that were not generated is not proved; the monitor works on page ownership, byte-level immutability of pinned pages and table contents are judged by the harness oracles (fingerprints, re-reads, recorded commit points); single-threaded histories" + "; owned guards/iterators outliving the transaction handle and thread interleavings are not yet exercised (C03 pause points planned)",
         "technique": "Lean 4 proof of a trace monitor + re-reading of live snapshots after every step",
         "design_ref": "DESIGN.md §6 C02",
     },
@@ -132,7 +140,7 @@ CLAIMED = {
                 "implementation, transactions are abandoned by abort(), drop, and commit() of a transaction poisoned by a panicking predicate, "
                 "after arbitrary bodies (table writes, delete table, savepoint create/delete/restore, durability changes); the next contents, "
                 "persistent-savepoint list, savepoint validity and the full page accounting must equal the state before.",
-        "note": NOTE + "; the theorems are about the ownership monitor (proven-monitor correspondence): they turn `accept trace` into the property for every accepted trace; that every trace the real system can produce is accepted is checked only on the generated histories; the monitor works on page ownership, byte-level immutability of pinned pages and table contents are judged by the harness oracles (fingerprints, re-reads, recorded commit points); single-threaded histories" + "; failures injected inside rename/delete/restore are covered by C08's fault sweep, not here",
+        "note": NOTE + "; two layers: the algorithmic model Life2 (invariant proved for every reachable state of the model; its inputs are the observed tree diffs - the B-tree layer is not modelled there - and it is tied to the code by predicting every observed state of the generated histories, about 96% of states, the rest - first state of a case, completed compact() - resynchronised under a checked postcondition) and the ownership monitor (proven-monitor correspondence: `accept trace` implies the property for that trace); that the real system behaves as the model on histories that were not generated is not proved; the monitor works on page ownership, byte-level immutability of pinned pages and table contents are judged by the harness oracles (fingerprints, re-reads, recorded commit points); single-threaded histories" + "; failures injected inside rename/delete/restore are covered by C08's fault sweep, not here",
         "technique": "Lean 4 proof (abandoned transactions in the ownership monitor) + before/after comparison on the real database",
         "design_ref": "DESIGN.md §6 C05",
     },
@@ -142,7 +150,7 @@ CLAIMED = {
                 "restore+commit of ephemeral and persistent savepoints gives exactly the contents recorded at creation, later savepoints become "
                 "unusable, restore+abort changes nothing, persistent savepoints stay listed across clean reopen and crash (thorough tier: every "
                 "crash image of C01's enumeration), any order of create/restore/delete/drop leaves no leak at quiescence.",
-        "note": NOTE + "; the theorems are about the ownership monitor (proven-monitor correspondence): they turn `accept trace` into the property for every accepted trace; that every trace the real system can produce is accepted is checked only on the generated histories; the monitor works on page ownership, byte-level immutability of pinned pages and table contents are judged by the harness oracles (fingerprints, re-reads, recorded commit points); single-threaded histories",
+        "note": NOTE + "; two layers: the algorithmic model Life2 (invariant proved for every reachable state of the model; its inputs are the observed tree diffs - the B-tree layer is not modelled there - and it is tied to the code by predicting every observed state of the generated histories, about 96% of states, the rest - first state of a case, completed compact() - resynchronised under a checked postcondition) and the ownership monitor (proven-monitor correspondence: `accept trace` implies the property for that trace); that the real system behaves as the model on histories that were not generated is not proved; the monitor works on page ownership, byte-level immutability of pinned pages and table contents are judged by the harness oracles (fingerprints, re-reads, recorded commit points); single-threaded histories",
         "technique": "Lean 4 proof of a trace monitor + savepoint histories on the real database",
         "design_ref": "DESIGN.md §6 C07",
     },
@@ -164,7 +172,7 @@ CLAIMED = {
                 "crash-reopen (full repair and quick-repair paths) and check_integrity the allocator bits equal the owner sets exactly, "
                 "check_integrity returns Ok(true) with unchanged contents, and further transactions run under the same monitor. A genuine "
                 "defect found by this check (check_integrity Ok(false) after an aborted growing transaction) was fixed (known_findings.json).",
-        "note": NOTE + "; the theorems are about the ownership monitor (proven-monitor correspondence): they turn `accept trace` into the property for every accepted trace; that every trace the real system can produce is accepted is checked only on the generated histories; the monitor works on page ownership, byte-level immutability of pinned pages and table contents are judged by the harness oracles (fingerprints, re-reads, recorded commit points); single-threaded histories" + "; 'a saved allocation snapshot is used only if it belongs to the commit being opened' is observed through the accounting after quick-repair opens, not proved",
+        "note": NOTE + "; two layers: the algorithmic model Life2 (invariant proved for every reachable state of the model; its inputs are the observed tree diffs - the B-tree layer is not modelled there - and it is tied to the code by predicting every observed state of the generated histories, about 96% of states, the rest - first state of a case, completed compact() - resynchronised under a checked postcondition) and the ownership monitor (proven-monitor correspondence: `accept trace` implies the property for that trace); that the real system behaves as the model on histories that were not generated is not proved; the monitor works on page ownership, byte-level immutability of pinned pages and table contents are judged by the harness oracles (fingerprints, re-reads, recorded commit points); single-threaded histories" + "; 'a saved allocation snapshot is used only if it belongs to the commit being opened' is observed through the accounting after quick-repair opens, not proved",
         "technique": "Lean 4 proof of a trace monitor + exact allocator-vs-owner comparison after every kind of open",
         "design_ref": "DESIGN.md §6 C11",
     },
@@ -184,7 +192,7 @@ CLAIMED = {
                 "compact() is refused exactly when readers or savepoints exist, leaves every table's contents unchanged, never makes the file "
                 "larger, and leaves exact accounting; thorough tier adds crash images inside compaction (C01's enumeration). A genuine defect "
                 "found earlier (compact() could grow the file) was fixed (known_findings.json).",
-        "note": NOTE + "; the theorems are about the ownership monitor (proven-monitor correspondence): they turn `accept trace` into the property for every accepted trace; that every trace the real system can produce is accepted is checked only on the generated histories; the monitor works on page ownership, byte-level immutability of pinned pages and table contents are judged by the harness oracles (fingerprints, re-reads, recorded commit points); single-threaded histories" + "; 'finishes in a bounded number of passes' is only observed (the call returns), relocation is not modelled in Lean",
+        "note": NOTE + "; two layers: the algorithmic model Life2 (invariant proved for every reachable state of the model; its inputs are the observed tree diffs - the B-tree layer is not modelled there - and it is tied to the code by predicting every observed state of the generated histories, about 96% of states, the rest - first state of a case, completed compact() - resynchronised under a checked postcondition) and the ownership monitor (proven-monitor correspondence: `accept trace` implies the property for that trace); that the real system behaves as the model on histories that were not generated is not proved; the monitor works on page ownership, byte-level immutability of pinned pages and table contents are judged by the harness oracles (fingerprints, re-reads, recorded commit points); single-threaded histories" + "; 'finishes in a bounded number of passes' is only observed (the call returns), relocation is not modelled in Lean",
         "technique": "Lean 4 proof of a trace monitor + compaction histories on the real database",
         "design_ref": "DESIGN.md §6 C13",
     },
